@@ -44,6 +44,10 @@ impl<'a> core::fmt::Debug for OnDiskDirEntry<'a> {
 impl<'a> OnDiskDirEntry<'a> {
     pub(crate) const LEN: usize = 32;
     pub(crate) const LEN_U32: u32 = 32;
+    /// First name byte of an entry that has been deleted.
+    pub(crate) const DELETED_MARKER: u8 = 0xE5;
+    /// First name byte stored in place of a real 0xE5.
+    pub(crate) const KANJI_LEAD_BYTE: u8 = 0x05;
 
     define_field!(raw_attr, u8, 11);
     define_field!(create_time, u16, 14);
@@ -106,7 +110,13 @@ impl<'a> OnDiskDirEntry<'a> {
 
     /// Does this on-disk entry match the given filename?
     pub fn matches(&self, sfn: &ShortFileName) -> bool {
-        self.data[0..11] == sfn.contents
+        let first = match self.data[0] {
+            // a deleted entry has no name any more
+            Self::DELETED_MARKER => return false,
+            Self::KANJI_LEAD_BYTE => Self::DELETED_MARKER,
+            other => other,
+        };
+        first == sfn.contents[0] && self.data[1..11] == sfn.contents[1..11]
     }
 
     /// Which cluster, if any, does this file start at? Assumes this is from a FAT32 volume.
@@ -155,6 +165,9 @@ impl<'a> OnDiskDirEntry<'a> {
             entry_offset,
         };
         result.name.contents.copy_from_slice(&self.data[0..11]);
+        if result.name.contents[0] == Self::KANJI_LEAD_BYTE {
+            result.name.contents[0] = Self::DELETED_MARKER;
+        }
         result
     }
 }
